@@ -53,7 +53,9 @@ DTYPES = {'float': float, 'int': int, 'bool': bool, 'str': str, 'U2': '<U2', Non
 # -- objects under test ---------------------------------------------------------------------------------
 
 
-def make_object(kind, span_desc, strict=False):
+def make_object(kind, span_desc, strict=False, dtype=None):
+    """`dtype`: the default dtype handed to a model / linker constructor (None = the library default, float)."""
+    extra = {} if dtype is None else {'dtype': dtype}
     span = spans.build(span_desc)
     n = len(span)
     if kind == 'container':
@@ -74,7 +76,7 @@ def make_object(kind, span_desc, strict=False):
 
             def _evaluate(self, t, **kwargs):
                 self._X[t] = self._Y[t] * 0.5 + 1
-        m = M(span, strict=strict, X=np.arange(float(n)))
+        m = M(span, strict=strict, X=np.arange(float(n)), **extra)
         m.add_variable('N', list(range(n)), dtype=int)
         m.add_variable('S', 'ab', dtype=str)
         return m
@@ -89,7 +91,7 @@ def make_object(kind, span_desc, strict=False):
             EXOGENOUS = ['Y']
             NAMES = ENDOGENOUS + EXOGENOUS
             CHECK = ENDOGENOUS
-        lk = L({'a': Sub(span), 'b': Sub(spans.build(span_desc))}, X=np.arange(float(n)))
+        lk = L({'a': Sub(span), 'b': Sub(spans.build(span_desc))}, X=np.arange(float(n)), **extra)
         lk.add_variable('N', list(range(n)), dtype=int)
         if strict:
             lk.strict = True
